@@ -5,6 +5,7 @@ package harness
 // made to fail on a simulator-chosen call.
 
 import (
+	"time"
 	"context"
 	"errors"
 	"fmt"
@@ -252,6 +253,13 @@ type Ctx struct {
 func NewCtx() *Ctx {
 	inner, cancel := context.WithCancel(context.Background())
 	return &Ctx{Context: inner, cancel: cancel}
+}
+
+// WithDeadline gives the context a deadline as well (context.WithDeadline). It has to be called inside the
+// simulation (the timer belongs to the fake clock) and before the context is handed to the product.
+func (c *Ctx) WithDeadline(d time.Duration) {
+	inner, cancel := context.WithDeadline(context.Background(), time.Now().Add(d))
+	c.Context, c.cancel = inner, cancel
 }
 
 func (c *Ctx) Polls() int64 { return c.polls.Load() }
